@@ -279,24 +279,27 @@ impl Walrus {
                     }
                 }
             } else {
-                // No persisted tail in this call: start from the progress already made in the
-                // active block in this process (its start if there is none). Persisting offset 0
-                // here would overwrite the durable position of entries that were already
-                // consumed from this block, and they would be delivered again after a restart.
-                let init_off = if tail_snapshot.0 == active_block.id {
-                    tail_snapshot.1
-                } else {
-                    0
-                };
-                persisted_tail = Some((active_block.id, init_off));
-                if checkpoint {
+                // No persisted tail in this call: init at current active block start. The
+                // provisional position (block start) is only written when the index does not
+                // already hold a position inside this block: overwriting that with offset 0
+                // on every poll made a restarted consumer re-read entries it had consumed
+                // (and, in AtLeastOnce mode, reset the persist counter on every call so that
+                // the real offset was never persisted).
+                persisted_tail = Some((active_block.id, 0));
+                let already_in_block = self
+                    .read_offset_index
+                    .read()
+                    .ok()
+                    .and_then(|g| {
+                        g.get(col_name)
+                            .map(|p| p.cur_block_idx == (active_block.id | TAIL_FLAG))
+                    })
+                    .unwrap_or(false);
+                if checkpoint && !already_in_block {
                     if self.should_persist(&mut info, true) {
                         if let Ok(mut idx_guard) = self.read_offset_index.write() {
-                            let _ = idx_guard.set(
-                                col_name.to_string(),
-                                active_block.id | TAIL_FLAG,
-                                init_off,
-                            );
+                            let _ =
+                                idx_guard.set(col_name.to_string(), active_block.id | TAIL_FLAG, 0);
                         }
                     }
                 }
